@@ -82,30 +82,40 @@ def absSlot (A : Auto) (e : Expr) : List (MQ A) → Option (List (MQ A))
     let b ← absSlot A e r
     pure (union a b)
 
-abbrev Facts := List (String × Bool)
+/-- does the expression read the context name `x`? -/
+def mentions (x : String) : Expr → Bool
+  | .name n => n == x
+  | .attr e _ | .not e | .isDefined e | .isNone e | .mcall e _ _ | .filter e _ => mentions x e
+  | .item a b | .and a b | .or a b | .cmp _ a b => mentions x a || mentions x b
+  | _ => false
 
-def Facts.has (σ : Facts) (x : String) : Bool := σ.any (fun p => p.1 == x)
+/-- known truth values of expressions over the render context (e.g. `fields` ↦ false) -/
+abbrev Facts := List (Expr × Bool)
+
+/-- is the name read by one of the fact expressions (then it must not be re-bound)? -/
+def Facts.has (σ : Facts) (x : String) : Bool := σ.any (fun p => mentions x p.1)
 
 /-- truth value of a condition as far as the facts decide it -/
-def absCond (σ : Facts) : Expr → Option Bool
-  | .name x => σ.lookup x
-  | .not e => (absCond σ e).map (!·)
-  | .and a b => match absCond σ a, absCond σ b with
-    | some false, _ => some false
-    | _, some false => some false
-    | some true, some true => some true
-    | _, _ => none
-  | .or a b => match absCond σ a, absCond σ b with
-    | some true, _ => some true
-    | _, some true => some true
-    | some false, some false => some false
-    | _, _ => none
-  | _ => none
+def absCond (σ : Facts) (e : Expr) : Option Bool :=
+  match σ.lookup e with
+  | some b => some b
+  | none =>
+    match e with
+    | .not e => (absCond σ e).map (!·)
+    | .and a b => (match absCond σ a, absCond σ b with
+      | some false, _ => some false
+      | _, some false => some false
+      | some true, some true => some true
+      | _, _ => none)
+    | .or a b => (match absCond σ a, absCond σ b with
+      | some true, _ => some true
+      | _, some true => some true
+      | some false, some false => some false
+      | _, _ => none)
+    | _ => none
 
 /-- does the loop run: `some false` = never, `some true` = at least once, `none` = unknown -/
-def absIter (σ : Facts) : Expr → Option Bool
-  | .name x => σ.lookup x
-  | _ => none
+def absIter (σ : Facts) (e : Expr) : Option Bool := σ.lookup e
 
 /-- smallest superset of `S` closed under `f`, within `fuel` rounds -/
 def closeLoop {α} [DecidableEq α] (f : List α → Option (List α)) : Nat → List α → Option (List α)
@@ -158,8 +168,8 @@ def absL (A : Auto) (σ : Facts) : List Tpl → List (MQ A) → Option (List (MQ
     absL A σ ts S'
 end
 
-/-- all total assignments of truth values to the names -/
-def assignments : List String → List Facts
+/-- all total assignments of truth values to the expressions -/
+def assignments : List Expr → List Facts
   | [] => [[]]
   | x :: xs => (assignments xs).flatMap (fun σ => [(x, false) :: σ, (x, true) :: σ])
 
@@ -167,15 +177,15 @@ def assignments : List String → List Facts
 def finalStates (A : Auto) (init : A.Q) (σ : Facts) (t : List Tpl) : Option (List A.Q) :=
   (absL A σ t [(Mode.off, init)]).map (fun S => S.map (·.2))
 
-/-- the first assignment of the fact names under which some possible final state is not `good`
-(or the analysis gives up): the model-level counter-example -/
-def refute (A : Auto) (init : A.Q) (good : A.Q → Bool) (names : List String) (t : List Tpl) : Option Facts :=
-  (assignments names).find? (fun σ => match finalStates A init σ t with
+/-- the first assignment of the enumerated expressions (on top of the assumed facts) under which
+some possible final state is not `good` (or the analysis gives up): the model-level counter-example -/
+def refute (A : Auto) (init : A.Q) (good : A.Q → Bool) (assume : Facts) (enum : List Expr) (t : List Tpl) : Option Facts :=
+  (assignments enum).find? (fun σ => match finalStates A init (assume ++ σ) t with
     | some S => !S.all good
     | none => true)
 
-def check (A : Auto) (init : A.Q) (good : A.Q → Bool) (names : List String) (t : List Tpl) : Bool :=
-  (assignments names).all (fun σ => match finalStates A init σ t with
+def check (A : Auto) (init : A.Q) (good : A.Q → Bool) (assume : Facts) (enum : List Expr) (t : List Tpl) : Bool :=
+  (assignments enum).all (fun σ => match finalStates A init (assume ++ σ) t with
     | some S => S.all good
     | none => false)
 
@@ -218,5 +228,7 @@ end
 def factNames (t : List Tpl) : List String :=
   let bound := boundNamesL t
   dedup ((usedNamesL t).filter (fun x => !bound.contains x))
+
+def factExprs (t : List Tpl) : List Expr := (factNames t).map Expr.name
 
 end Dcg.Model.TemplateAbs
